@@ -69,6 +69,18 @@ func derefType(rtype reflect.Type) reflect.Type {
 	return rtype
 }
 
+// Get rid of 0 to many levels of pointers to get at the real value. The
+// returned bool is false when a nil pointer was encountered on the way.
+func derefValue(rvalue reflect.Value) (reflect.Value, bool) {
+	for rvalue.Kind() == reflect.Ptr {
+		if rvalue.IsNil() {
+			return rvalue, false
+		}
+		rvalue = rvalue.Elem()
+	}
+	return rvalue, true
+}
+
 func doMatchMatches(expression *grammar.MatchExpression, value reflect.Value) (bool, error) {
 	if !value.IsValid() {
 		return false, fmt.Errorf("Cannot perform matches/not matches operations on a nil value for selector: %q", expression.Selector)
@@ -144,6 +156,10 @@ func doMatchIn(expression *grammar.MatchExpression, value reflect.Value) (bool, 
 			// type/kind and rederiving the match value.
 			for i := 0; i < value.Len(); i++ {
 				item := value.Index(i).Elem()
+				if !item.IsValid() {
+					// a nil element is not equal to anything
+					continue
+				}
 				itemType := derefType(item.Type())
 				kind := itemType.Kind()
 				// We need to special case errors here. The reason is that in an
@@ -167,8 +183,9 @@ func doMatchIn(expression *grammar.MatchExpression, value reflect.Value) (bool, 
 				if eqFn == nil {
 					return false, fmt.Errorf(`unable to find suitable primitive comparison function for "in" comparison in interface slice: %s`, kind)
 				}
-				// the value will be the correct type as we verified the itemType
-				if eqFn(matchValue, reflect.Indirect(item)) {
+				// the value will be the correct type as we verified the itemType,
+				// a nil pointer is not equal to anything
+				if elem, ok := derefValue(item); ok && eqFn(matchValue, elem) {
 					return true, nil
 				}
 			}
@@ -187,9 +204,9 @@ func doMatchIn(expression *grammar.MatchExpression, value reflect.Value) (bool, 
 				return false, errors.New(`unable to find suitable primitive comparison function for "in" comparison`)
 			}
 			for i := 0; i < value.Len(); i++ {
-				item := value.Index(i)
-				// the value will be the correct type as we verified the itemType
-				if eqFn(matchValue, reflect.Indirect(item)) {
+				// the value will be the correct type as we verified the itemType,
+				// a nil pointer is not equal to anything
+				if elem, ok := derefValue(value.Index(i)); ok && eqFn(matchValue, elem) {
 					return true, nil
 				}
 			}
